@@ -1312,7 +1312,8 @@ static void wlExact(Ctx& c, int nexec, int len, int maxDim)
 
 
 // ---------------------------------------------------------------- C11 (second half): rational basis inverse queries on a solver basis
-static std::string ssq(const SSVectorRational& v, int n) { return jarr(n, [&](int i) { return jq(i < v.dim() ? qrat(v[i]) : std::string("nan")); }); }
+// (entries of an inverse are plain numbers: no infinity threshold)
+static std::string ssq(const SSVectorRational& v, int n) { return jarr(n, [&](int i) { return jq(i < v.dim() ? qmpq(v[i].backend().data()) : std::string("nan")); }); }
 static void binvQQueries(Ctx& c, int o)
 {
    SoPlex& s = *c.objs[o]; int nr = s.numRowsRational();
@@ -1349,12 +1350,16 @@ static void wlBinvQ(Ctx& c, int nexec, int len)
       int o = createObj(c);
       setInt(c, o, "SYNCMODE", SoPlex::SYNCMODE, SoPlex::SYNCMODE_AUTO);
       exactConfig(c, o, 0);
+      // half of the executions let the exact solve END in the rational factorization (which then stays loaded for the queries),
+      // with and without the equality transformation that appends slack columns for the duration of the solve
+      if(c.rng.coin()) { setBool(c, o, "RATFAC", SoPlex::RATFAC, true); setInt(c, o, "RATFAC_MINSTALLS", SoPlex::RATFAC_MINSTALLS, 0); setBool(c, o, "RATREC", SoPlex::RATREC, false);
+                         setBool(c, o, "EQTRANS", SoPlex::EQTRANS, c.rng.coin()); }
       LPDataQ Q = genWitnessedQ(c.rng, 4, kinds[c.rng.R(0, 4)], c.rng.coin());
       loadLPQ(c, o, Q); witnessQ(c, o, Q);
       for(int step = 0; step < len; step++)
       {
          int k = c.rng.R(0, 99); SoPlex& s = *c.objs[o]; bool solvable = s.numCols() > 0 && s.numRows() > 0;
-         if(k < 15) { if(!solvable) continue; SolveOpts so; so.complete = false; optimizeQ(c, o, so); binvQQueries(c, o); }
+         if(k < 15) { if(!solvable) continue; SolveOpts so; so.complete = false; optimizeQ(c, o, so); binvQQueries(c, o); binvQQueries(c, o); }
          else if(k < 30) { setRandomBasis(c, o); binvQQueries(c, o); }
          else if(k < 35) clearBasis(c, o);
          else if(k < 65) binvQQueries(c, o);
